@@ -116,6 +116,8 @@ def _mutate(x, mut, rng):
     elif mut == "set_dtype": x.dtype = np.float64 if C.dtype_name(x.dtype) != "float64" else np.longdouble
     elif mut == "meta":
         x.name = "changed"; x.title = "changed title"; x.meta_data["custom"] = [1, 2]
+        if isinstance(x.meta_data.get("tags"), list):      # an edit inside a mutable entry
+            x.meta_data["tags"].append("more"); x.meta_data["tags"][1]["k"].append(2)
         x.axis_names = tuple("m%d" % i for i in range(nd))
     elif mut == "imerge": x.merge_bins(2, inplace=True)
     else: raise KeyError(mut)
@@ -140,7 +142,7 @@ def impl(case):
             parent, child = col.histograms[0], cp.histograms[0]
             ok = (cp == col) and len(cp) == len(col)
         else:
-            a = C.mk_ah(d["hist"]); a.name = "src"; a.meta_data["custom"] = "x"
+            a = C.mk_ah(d["hist"]); a.name = "src"; a.meta_data["custom"] = "x"; a.meta_data["tags"] = ["t", {"k": [1]}]      # a mutable entry
             bd = sx.rec(d["hist"])
             if "other" in d and d["other"] != "none": b = C.mk_ah(d["other"])
             else: b = C.mk_ah(d["hist"])
